@@ -42,6 +42,11 @@ func backwardSlice(fn *ssa.Function, seeds []ssa.Value, seedInstrs []ssa.Instruc
 		if _, ok := dynFns[g]; ok {
 			return true
 		}
+		for d := range dynFns {
+			if InBody(d, g) {
+				return true // a helper of a callback that belongs to the slice
+			}
+		}
 		if IsInlined(fn) {
 			for _, r := range Roots(fn) {
 				if InBody(r, g) {
@@ -261,6 +266,21 @@ func backwardSlice(fn *ssa.Function, seeds []ssa.Value, seedInstrs []ssa.Instruc
 			}
 			if !contents[v] {
 				continue // identity only: the arguments of the call do not matter either
+			}
+		}
+		if mc, isMC := v.(*ssa.MakeClosure); isMC {
+			// a closure that flows into the slice (handed to slices.ContainsFunc, sort.Slice, ... as callback): what it
+			// computes is part of what the slice depends on
+			if t, _ := mc.Fn.(*ssa.Function); t != nil && t.Blocks != nil && pkgOf(t) != nil && strings.HasPrefix(pkgOf(t).Pkg.Path(), Module) {
+				if _, known := dynFns[t]; !known {
+					dynFns[t] = nil
+				}
+				for _, ret := range Returns(t) {
+					for _, rv := range ReturnValues(ret) {
+						addV(rv)
+					}
+					addBlock(ret.Block())
+				}
 			}
 		}
 		switch x := v.(type) {
